@@ -823,6 +823,12 @@ func (fr *Frame) lookupOp(x *ssa.Lookup, st *State, reach string) Val {
 	switch u := x.X.Type().Underlying().(type) {
 	case *types.Map:
 		dom, val, _ := g.mapHeaps(u)
+		// reads of package-level maps are recorded so that a counterexample can set the entries it needs
+		if ld, ok := x.X.(*ssa.UnOp); ok && fr.depth == 0 {
+			if gl, ok := ld.X.(*ssa.Global); ok && g.sorts.SortOf(u.Key()) == SInt && len(g.lookups) < 8 {
+				g.lookups = append(g.lookups, lookupRec{global: gl, mapT: u, key: k.T, mapV: m.T})
+			}
+		}
 		present := app("select", app("select", g.heapGet(st, dom), m.T), k.T)
 		raw := app("select", app("select", g.heapGet(st, val), m.T), k.T)
 		present = sAnd(sNot(app("=", m.T, "0")), present)
